@@ -73,7 +73,7 @@ CTX = 'r'
 EX_ATOMS = [['lit', 'a'], ['lit', 'b'], ['dot'], ['cls', ['a'], True], ['cls', ['a', 'b'], False]]
 EX_REPS = [(2, 2), (1, 2), (2, None)]
 EX_ALPHA = 'abc'
-MB_SYMS = ['π', '€', '𐍈']          # 2, 3 and 4 byte encodings
+MB_SYMS = ['π', '€', '𐍈', 'é', 'ÿ']          # 2, 3 and 4 byte encodings; é and ÿ lie in U+0080..U+00FF (one Latin-1 byte, two UTF-8 bytes)
 STEP_CAP = 4000
 
 
@@ -137,11 +137,19 @@ def fsm_of(ast):
     return greenery.fsm.fsm(alphabet=set(alphabet), states=set(table), initial=0, finals=finals, map=table)
 
 
+def rctx_of(mode, rx):
+    """Half of the machines (not the promoting ones) are built with a regex_context: the consumed prefix is then documented to be
+    collected at <context>.<regex_context>.input instead of <context>.input."""
+    import zlib
+    return 'head' if mode != 'promote' and zlib.crc32(rx.encode('utf-8')) % 2 else None
+
+
 def _build(mode, rx, ast):
     """-> (machine, None) or (None, exception)"""
     cls = _classes()[mode]
+    kw = {'regex_context': rctx_of(mode, rx)} if rctx_of(mode, rx) else {}
     try:
-        return cls(name='c11', context=CTX, initial=fsm_of(ast) if mode == 'bytes-fsm' else rx, terminal=True), None
+        return cls(name='c11', context=CTX, initial=fsm_of(ast) if mode == 'bytes-fsm' else rx, terminal=True, **kw), None
     except AssertionError as exc:
         return None, exc
 
@@ -211,7 +219,7 @@ def pieces_of(inp, cuts):
     return out            # [inp] when there are no cuts (also for the empty input)
 
 
-def drive(machine, inp, cuts):
+def drive(machine, inp, cuts, rctx=None):
     import cpppo
     rest = pieces_of(inp, cuts)
     source = cpppo.chainable(rest.pop(0))
@@ -235,7 +243,10 @@ def drive(machine, inp, cuts):
     if isinstance(promoted, array.array):
         stored, where = promoted, CTX
     else:
-        stored, where = data.get(CTX + '.input'), CTX + '.input'
+        where = CTX + ('.' + rctx if rctx else '') + '.input'
+        stored = data.get(where)
+        if stored is None and rctx and data.get(CTX + '.input') is not None:
+            stored, where = data.get(CTX + '.input'), CTX + '.input (not under the regex_context %r given)' % rctx
     if stored is None:
         got = inp[:0]
     elif stored.typecode == 'B':
@@ -440,9 +451,11 @@ def classify(case, p, inp, k, acc, last, exact):
 
 def evaluate(p, machine, inp, cuts, k, acc, exact):
     """Run and compare; -> (observation, problem or None) where problem = (aspect, expected)"""
-    o = drive(machine, inp, cuts)
+    o = drive(machine, inp, cuts, rctx_of(p.mode, p.rx))
     if o['hung']:
         return o, ('no-termination', 'run() ends within %d yields' % STEP_CAP)
+    if o['stored_at'] and 'not under' in o['stored_at']:
+        return o, ('prefix-stored-outside-the-given-regex_context', {'stored_at': '%s.%s.input' % (CTX, rctx_of(p.mode, p.rx))})
     if exact:
         if o['sent'] != k:
             return o, ('consumed-too-' + ('long' if o['sent'] > k else 'short'), {'sent': k})
